@@ -48,7 +48,9 @@ XMine == /\ Ev("MineBlock")
                              /\ StepOKX(E))
          /\ AdoptX(E) /\ Extend(E)
 \* state after the background goroutines have finished: only the node's own confirms on stable blocks may have been added
+\* (own_missing: blocks the node still holds whose stored copy lacks a confirm the node itself had published before this reading)
 XFinal == /\ Ev("Final") /\ Same(E) /\ E.new = <<>>
+          /\ ("own_missing" \in DOMAIN E => E.own_missing = <<>>)
           /\ \A b \in known \ {G} : conf[b] \subseteq ConfOf(E)[b]
           /\ AdoptX(E) /\ Extend(E)
 XEmit == /\ Ev("Emit")
